@@ -218,6 +218,27 @@ def build(cfg):
 # ---------------------------------------------------------------------------
 # round trips
 # ---------------------------------------------------------------------------
+def _expected_export(key, value):
+    """(exported key, exported value) a scalar option must show after it was set, or None when not modelled here"""
+    parts = key.split("__")
+    opt = parts[-1]
+    if len(parts) == 1 and opt in ("vary_rounds", "truncate_error"):
+        key = "all__" + opt
+    if opt == "truncate_error":
+        return key, (value if isinstance(value, bool) else str(value).lower() in ("true", "1", "yes", "on"))
+    if opt == "vary_rounds":
+        if isinstance(value, str) and value.endswith("%"):
+            return key, float(value[:-1]) / 100
+        if isinstance(value, str):
+            return key, (float(value) if "." in value else int(value))
+        return key, value
+    if opt in ("max_rounds", "min_rounds", "rounds", "default_rounds"):
+        return key, int(value)
+    if opt == "default" and isinstance(value, str):
+        return key, value
+    return None
+
+
 def valid_changes(cfg, model):
     """single valid changes {key: value} (the model approves the merged configuration)"""
     L = model.schemes
@@ -393,6 +414,16 @@ def _eval_roundtrip(case, out, acc=None, tmpdir=None):
             nd, fd = live.to_dict(), fresh.to_dict()
             if nd != fd:
                 out.append((f"C10|update|differs_from_dict_update:{kind}", f"update(**{ch!r}) on {cfg!r} exports {nd!r}; dict-update of the export gives {fd!r}"))
+            # the change must have taken effect: the exported value of the changed option is the new value (stated
+            # independently of the implementation for the scalar options; whatever spelling the old configuration used)
+            for k, v in ch.items():
+                want = _expected_export(k, v)
+                if want is None:
+                    continue
+                ek, ev_ = want
+                got = nd.get(ek, _MISSING)
+                if got is _MISSING or got != ev_ or type(got) is not type(ev_):
+                    out.append((f"C10|update|change_without_effect:{kind}", f"update(**{ch!r}) on CryptContext(**{cfg!r}): exported {ek} = {'<absent>' if got is _MISSING else repr(got)}, expected {ev_!r}"))
             od = ctx.to_dict()
             touched = {k for k in set(od) | set(nd) if od.get(k, _MISSING) != nd.get(k, _MISSING)}
             # (the un-prefixed global settings are exported in their all__ form)
